@@ -190,3 +190,20 @@ package kv
 //@   loop 0 modifies s.data
 //@   loop 0 invariant forall k string :: old(__in(s.data, k)) ==> __in(s.data, k) && !gt(vlOp(old(s.data[k])), vlOp(s.data[k]))
 //@   loop 0 invariant forall i int :: 0 <= i && i < __ri(0) ==> __in(s.data, string(ops[i].Key)) && !gt(vlOp(ops[i]), vlOp(s.data[string(ops[i].Key)]))
+
+//@ # ---- the filtered view of the change stream (C13: "The host-leaseholder filter hides exactly
+//@ # the changes led by the host"). The callback registered on the request pump is executed from an
+//@ # arbitrary state (pragma arg_closures): the subscriber's handler is reached exactly for the
+//@ # requests the filter does not hide, and a request is dropped only when the filter is on and the
+//@ # host led it. How often the pump runs the callback is the observer registry's business (lock
+//@ # discipline above); one registration per subscription is what the anchors pin.
+//@ ignorepkg github.com/synnaxlabs/x/observe
+//@ ignore func (tx TxRequest) reader() xkv.TxReader
+//@ func (o *observable) OnChange(handler func(ctx context.Context, reader xkv.TxReader)) (d observe.Disconnect)
+//@   pragma arg_closures
+//@   pragma opaque_func_values handler
+//@   # the view was built by NewObservable on an open DB
+//@   closure_requires o.db != nil && o.db.config.Cluster != nil
+//@   assert_before "handler(ctx, tx.reader())" !(o.opts.ignoreHostLeaseholder && tx.Leaseholder == cluster.SpecHostKey(o.db.config.Cluster))
+//@   assert_before "return#1" o.opts.ignoreHostLeaseholder && tx.Leaseholder == cluster.SpecHostKey(o.db.config.Cluster)
+//@   modifies nothing
